@@ -224,9 +224,11 @@ def run(chk, replay=None):
             return (CartesianGrid2D.from_origins(numpy.array([[-117.0, -33.0], [-115.0, -33.0]]), dh=2.0),
                     lambda lon, lat: (-117.0 <= lon < -113.0) and (-33.0 <= lat < -31.0))
         if kind == 'cart-flag':
-            org = numpy.array([[-118.0, -34.0], [-116.0, -34.0]])
-            reg = CartesianGrid2D([Polygon(b) for b in compute_vertices(org, 2.0)], 2.0, mask=numpy.array([1.0, 0.0]))
-            return reg, (lambda lon, lat: (-118.0 <= lon < -116.0) and (-34.0 <= lat < -32.0))
+            # two cells of one degree; the second is flagged out and holds pool values (-117, -116.95): events there
+            # are outside the region although a polygon exists at their place
+            org = numpy.array([[-118.0, -34.0], [-117.0, -34.0]])
+            reg = CartesianGrid2D([Polygon(b) for b in compute_vertices(org, 1.0)], 1.0, mask=numpy.array([1.0, 0.0]))
+            return reg, (lambda lon, lat: (-118.0 <= lon < -117.0) and (-34.0 <= lat < -33.0))
         reg = QuadtreeGrid2D.from_quadkeys(['2', '1'])
         return reg, (lambda lon, lat: (lon < 0 and lat < 0) or (lon >= 0 and lat >= 0))
 
